@@ -17,8 +17,13 @@ def n_spawns(case: dict) -> int:
     return sum(1 for s in case["steps"] if s["op"] == "spawn")
 
 
+BURST = profile(classes=["TaskPool", "SimpleTaskPool"], kinds=["apply", "map"], sizes=[150, 200, 300, None], max_num=300, max_elems=300,
+                min_steps=2, max_steps=8, p_cb=0.1, p_cb_wait=0.0, p_embedded=0.0, p_swallow=0.0, p_cleanup=0.0, burst=True,
+                ops={"spawn": 3, "tick": 4, "cancel_group": 2, "cancel_all": 1, "flush": 1, "settle": 2, "cancel": 1})
+
+
 def _c01() -> SimEngine:
-    prof = profile(sizes=FIN, p_cb_raise=0.12, p_worker_raise=0.1, p_callfault=0.1,
+    prof = profile(sizes=FIN, p_cb_raise=0.12, p_worker_raise=0.1, p_callfault=0.1, p_bad_return=0.06,
                    ops={"set_size": 0, "cancel": 2, "cancel_group": 1.2, "flush": 1.5, "close": 0.3, "spawn": 9, "abandon": 0.6})
     emb = profile(sizes=FIN, p_embedded=0.4, p_cb_raise=0.1, ops={"spawn": 9, "cancel": 2})
     def sw(tier: str):
@@ -39,7 +44,7 @@ def _c01() -> SimEngine:
         "close/lock/gate/tick in placements inline/task/call_soon and embedded in workers, callbacks, iterators. Non-trivial: at some "
         "observation point live workers == pool size (finite) while a spawner still had work to do (someone waits for room). "
         "Distinct = canonical JSON hash of the program.",
-        [("default", prof, 0.6), ("embedded-heavy", emb, 0.25), ("two-pools", dict(prof, max_pools=2), 0.15)],
+        [("default", prof, 0.58), ("embedded-heavy", emb, 0.25), ("two-pools", dict(prof, max_pools=2), 0.15), ("burst", BURST, 0.02)],
         lambda case, l: "pool-full-with-spawner-waiting" in l,
         n_quick=4000, n_thorough=200000, sweep=sw,
         floors={"pool-full-with-spawner-waiting": 0.3, "idle:pool-full": 0.3})
@@ -63,7 +68,7 @@ def _c02() -> SimEngine:
         "programs weighted towards cancellations close to task creation, exceptions, slow async callbacks and overlapping flush(); plus the "
         "enumerated placement sweep. Non-trivial: a cancellation reached a task before its first step, or a flush overlapped a callback / "
         "saw a state change while suspended, and the end-of-run capacity probe ran. Distinct = program hash.",
-        [("default", prof, 0.85), ("two-pools", dict(prof, max_pools=2), 0.15)],
+        [("default", prof, 0.83), ("two-pools", dict(prof, max_pools=2), 0.15), ("burst", BURST, 0.02)],
         lambda case, l: "probe:done" in l and bool(l & {"cancel:before-first-step", "group-cancel:task-before-first-step",
                                                        "flush:overlaps-callback", "flush:state-changed-meanwhile"}),
         n_quick=4000, n_thorough=200000, sweep=sw,
@@ -285,7 +290,7 @@ def _c15() -> SimEngine:
         "pool_size reads at every observation point and assignments (old/new pairs incl. equal, 0, inf, negative) with k running and w "
         "waiting tasks. Non-trivial: an accepted assignment followed by further spawning, or an assignment/read on an occupied pool. "
         "Distinct = program hash.",
-        [("default", prof, 1.0)],
+        [("default", prof, 0.97), ("burst", dict(BURST, ops=dict(BURST["ops"], set_size=0.5)), 0.03)],
         lambda case, l: bool(l & {"set_size:ok"}),
         n_quick=4000, n_thorough=200000, floors={"set_size:unoccupied": 0.2, "set_size:occupied": 0.2, "set_size:negative-rejected": 0.1})
 
